@@ -8,7 +8,7 @@ ASSUMPTIONS = base.ASSUMPTIONS + ['results up to 53 bits (int64 accumulation exa
                                   'NumPy-route = method-route is a dispatch fact established by correspondence only']
 RULE = ('RD lines: (function, call route numpy/method, axis None/0/1, shape up to 3x3 or length 8, format n_word<=12, overflow config, codes) with elements all-min / all-max / mixed extremes / random; '
         'RDD: dot of 1-D/2-D operands with mixed signedness; RDC: clip; RDM: np.matmul values. non-trivial = more than one element (always) and some element at an extreme of its format')
-TECHNIQUE = 'Lean 4 theorems (sum of k in-range codes fits n_word+ceil(log2 k) bits, prefix sums too, product of k codes fits k*n_word bits, dot fits, values exact, max/sort/clip characterised) + differential correspondence'
+TECHNIQUE = 'Lean 4 theorems (sum of k in-range codes fits n_word+ceil(log2 k) bits, prefix sums too, product of k codes fits k*n_word bits, dot fits, values exact, max/sort/clip characterised) + differential correspondence + source tie: the growth/sizing/carrier rules of fxpmath/functions.py are translated to Lean on every run (harness/srcgen.py) and the tie theorems of lean/FxpVerif/Gen/Tie.lean re-checked against the translation'
 LEVEL_TEXT = ('Machine-checked for any list length and word length: the sum (and every prefix sum) of k in-range codes is in range of the (n_word + clog2 k)-bit format, the product of k codes in range of the k*n_word-bit format, '
               'a dot product of length k in range of the (clog2 k + n_x + n_y)-bit format, for every signedness mix, so the accumulating functions never overflow and their values are the exact sums/products of the element values; '
               'max/min select an element, sort yields a sorted permutation, clip clamps. The implementation is compared with the list model on shapes up to 3x3 / length 8 through both call routes and every axis.')
